@@ -16,6 +16,17 @@ use crate::{signatures::Signature, Error, ParseError};
 #[cfg(feature = "ring-compat")]
 mod compat;
 
+/// Verification hook: the ring-compatibility rewrite applied to a PKCS#8 document before it is parsed
+/// (`None`: the document is passed through unchanged).
+#[cfg(all(ruma_verif, feature = "ring-compat"))]
+#[doc(hidden)]
+pub fn verif_compatible_document(bytes: &[u8]) -> Option<Vec<u8>> {
+    match compat::CompatibleDocument::from_bytes(bytes) {
+        compat::CompatibleDocument::WellFormed(_) => None,
+        compat::CompatibleDocument::CleanedFromRing(vec) => Some(vec),
+    }
+}
+
 /// A cryptographic key pair for digitally signing data.
 pub trait KeyPair: Sized {
     /// Signs a JSON object.
